@@ -16,7 +16,7 @@ from .ctx import CTX, PathEnd, OutOfSubset
 from .sym import (SInt, SBool, SStr, SRef, SBV, SReal, PyRaise, mk_int, mk_bool, mk_str, _zint, _zbool, zstr,
                   is_sym, ite)
 from .values import (Opaque, AbstractSeq, OneShotIter, EnumMember, FuncVal, BoundMethod, PropertyVal, HostFn, HostModule, ClassVal, VObj,
-                     RangeVal, IterVal, VDict, VSet, VList, GhostVal, UNROLL_LIMIT)
+                     RangeVal, IterVal, VDict, VSet, VList, GhostVal, PointwiseSeq, UNROLL_LIMIT)
 
 
 def repo_root():
@@ -514,6 +514,10 @@ class Interp:
             return b.pv_binop(type(op).__name__, a, True)
         if isinstance(a, VObj) or isinstance(b, VObj):
             return self._obj_binop(op, a, b)
+        if (isinstance(a, SRef) or isinstance(b, SRef)) and CTX.ghost.get("sref_binop") is not None:
+            r = CTX.ghost["sref_binop"](type(op).__name__, a, b)
+            if r is not NotImplemented:
+                return r
         if isinstance(a, VList) or isinstance(b, VList):
             if isinstance(op, ast.Add) and isinstance(a, VList) and isinstance(b, VList):
                 return a.concat(b)
@@ -656,6 +660,10 @@ class Interp:
         return self.compare_one(op, len(xs), len(ys))
 
     def is_(self, a, b):
+        if (isinstance(a, SRef) != isinstance(b, SRef)) and CTX.ghost.get("sref_is") is not None:
+            r = CTX.ghost["sref_is"](a, b) if isinstance(a, SRef) else CTX.ghost["sref_is"](b, a)
+            if r is not NotImplemented:
+                return r
         if a is None or b is None:
             return a is b
         if isinstance(a, SRef) and isinstance(b, SRef):
@@ -1227,6 +1235,10 @@ class Interp:
             raise OutOfSubset("unbounded loop in concrete mode")
         if s.orelse:
             raise OutOfSubset("for/else with symbolic bounds")
+        if isinstance(it, VObj):
+            m, _ = it.cls.lookup("__iter__")
+            if m is not None:
+                it = self.call(BoundMethod(m, it), [], {})
         if isinstance(it, OneShotIter):
             it = it.take()
         if isinstance(it, GhostVal):
@@ -1257,7 +1269,9 @@ class Interp:
                     ty = "list"
                 elif isinstance(cur, (str, SStr)):
                     ty = "str"
-            if ty == "int":
+            if callable(ty):
+                scope.vars[nm] = ty()
+            elif ty == "int":
                 scope.vars[nm] = SInt(z3.Int(CTX.fresh_name(nm)))
             elif ty == "bool":
                 scope.vars[nm] = SBool(z3.Bool(CTX.fresh_name(nm)))
@@ -1514,6 +1528,12 @@ class Interp:
             return self.call(BoundMethod(m, v), [], {})
         if isinstance(v, Opaque):
             return Opaque("unary")
+        if isinstance(v, GhostVal):
+            return v.pv_unop(type(e.op).__name__)
+        if isinstance(v, SRef) and CTX.ghost.get("sref_unop") is not None:
+            r = CTX.ghost["sref_unop"](type(e.op).__name__, v)
+            if r is not NotImplemented:
+                return r
         if isinstance(e.op, ast.USub):
             if isinstance(v, (bool, SBool)):
                 v = v + 0
@@ -1704,6 +1724,20 @@ class Interp:
         inner = Scope(scope.module, scope, scope.qualname)
         k = z3.Int(CTX.fresh_name("ck"))
         from .values import _elem_wrap
+        if isinstance(it, GhostVal):
+            # comprehension over a ghost sequence: lazily evaluated pointwise list (the element expression is
+            # evaluated for the requested index in the scope as it is at that time)
+            if len(g.ifs):
+                raise OutOfSubset("filtered comprehension over a ghost sequence")
+            src = it
+
+            def elem(j):
+                sc = Scope(scope.module, scope, scope.qualname)
+                self.assign_target(g.target, src.pv_getitem(j), sc)
+                return self.eval(e.elt, sc)
+
+            ln = src.pv_len()
+            return PointwiseSeq(ln if isinstance(ln, int) else z3.simplify(ln.t), elem, "comprehension")
         if isinstance(it, RangeVal) and it.step == 1:
             n = _zint(it.stop) - _zint(it.start)
             x = mk_int(_zint(it.start) + k)
